@@ -207,9 +207,13 @@ func runCfg(n *node, f *frame, funcNode, callNode *node) {
 	defer func() {
 		f.mutex.Lock()
 		f.recovered = recover()
+		// Do not hold the frame lock during the deferred calls: the wrapper of a
+		// function literal defined in this frame locks it as well (see getFunc).
+		f.mutex.Unlock()
 		for _, val := range f.deferred {
 			runDeferred(f, val)
 		}
+		f.mutex.Lock()
 		if f.recovered != nil {
 			oNode := originalExecNode(n, exec)
 			if oNode == nil {
